@@ -368,7 +368,7 @@ func (s *dsSim) afterStep(what string) {
 		s.probeChain(what)
 	}
 	if s.e.procErr != nil {
-		s.find("C02", "C02/process-block-error", fmt.Sprintf("ProcessBlock failed with %v after %s (the real block processor goroutine ends here)", s.e.procErr, what))
+		s.find("C01", "C01/process-block-error", fmt.Sprintf("ProcessBlock failed with %v after %s (the real block processor goroutine ends here and no further block is processed)", s.e.procErr, what))
 	}
 }
 
@@ -482,9 +482,16 @@ func (s *dsSim) probeChain(what string) {
 		s.find("C02", "C02/last-hash-not-tip", fmt.Sprintf("after %s: LastHash is not Hash(%d)", what, tip))
 	}
 	// every hash of the tree the repository claims to contain must map back
+	budget := 6 // older heights (served from stored files, costly) are sampled
 	for h, b := range s.peer.tree.ByHash {
 		h := h
 		if hh, ok := n.blocks.Height(&h); ok {
+			if hh < tip-60 {
+				if budget == 0 {
+					continue
+				}
+				budget--
+			}
 			got, err := n.blocks.Hash(s.e.ctx, hh)
 			if err != nil || *got != h {
 				s.find("C02", "C02/maps-not-inverse", fmt.Sprintf("after %s: Contains(block %d of the tree) but Hash(%d) is another block (tip %d)", what, b.Height, hh, tip))
